@@ -191,6 +191,60 @@ for _d in (2, 3, 4):
                 LEMMAS.append(LemmaJob("C04", f"roundtrip[{','.join(_s)}->{','.join(_t)}]", l_roundtrip(_d, _s, _t), cases=tau_cases(_s)))
 
 
+def array_dtype_part(job):
+    """BOUNDED: embeddings / to_<system>(keyword=...) on NumPy and Awkward arrays whose columns are integer- or float32-typed: the imputed
+    coordinate is exactly the keyword value, the stored coordinates keep their values (and, for embeddings, their dtype)"""
+    import numpy as np
+    import vector
+    from .. import arrays as AR
+    from .. import engined as E
+    try:
+        import awkward as ak
+    except Exception:
+        ak = None
+    system, mom = job
+    F = E.Fails()
+    names = AR.names_of(system)
+    d = len(system) + 1
+    if d == 4:
+        return F.n, F.bad
+    key = (lambda n: AR.MOM.get(n, n)) if mom else (lambda n: n)
+    tag0 = f"[{','.join(system)}|{'mom' if mom else 'gen'}"
+    kw2 = [("to_Vector3D", dict(z=2.5), "z"), ("to_Vector3D", dict(theta=0.75), "theta"), ("to_Vector3D", dict(eta=-1.25), "eta"),
+           ("to_Vector4D", dict(z=2.5, t=7.25), "t"), ("to_Vector4D", dict(eta=-1.25, tau=0.105), "tau"), ("to_xyzt", dict(z=2.5, t=7.25), "t"),
+           ("to_rhophietatau", dict(eta=-1.25, tau=0.105), "tau")]
+    kw3 = [("to_Vector4D", dict(t=7.25), "t"), ("to_Vector4D", dict(tau=0.105), "tau"), ("to_xyzt", dict(t=7.25), "t"), ("to_rhophithetatau", dict(tau=0.105), "tau")]
+    if mom:
+        kw2 += [("to_Vector4D", dict(pz=2.5, mass=0.105), "tau"), ("to_Vector4D", dict(pz=2.5, E=7.25), "t")]
+        kw3 += [("to_Vector4D", dict(mass=0.105), "tau"), ("to_Vector4D", dict(energy=7.25), "t")]
+    from vector._methods import _repr_momentum_to_generic as G
+    for dt in (np.int64, np.float32):
+        base = {n: (np.array([1, 2, 3]) + i).astype(dt) for i, n in enumerate(names)}
+        layouts = [("np(3)", lambda: vector.array({key(n): base[n].copy() for n in names}))]
+        if ak is not None:
+            layouts += [("ak-flat", lambda: vector.zip({key(n): ak.Array(base[n]) for n in names})),
+                        ("ak-jagged", lambda: vector.zip({key(n): ak.unflatten(ak.Array(base[n]), [2, 0, 1]) for n in names}))]
+        for lname, mkarr in layouts:
+            for meth, kwargs, probe in (kw2 if d == 2 else kw3):
+                tag = f"{meth}({','.join(f'{k}={v}' for k, v in kwargs.items())}){tag0}|{lname}|{np.dtype(dt).name}]"
+                try:
+                    with np.errstate(all="ignore"):
+                        r = getattr(mkarr(), meth)(**kwargs)
+                    for k, val in kwargs.items():
+                        g = G.get(k, k)
+                        col = getattr(r, g)
+                        flat = np.asarray(ak.to_numpy(ak.flatten(col, axis=None))) if (ak is not None and isinstance(col, ak.Array)) else np.asarray(col).reshape(-1)
+                        F.check("C04", f"array-dtypes/imputed-{g}-is-the-keyword-value/{tag}", flat.shape == (3,) and bool(np.all(flat == val)), dict(got=flat.tolist(), expected=val))
+                    if meth.startswith("to_Vector"):
+                        for n in names:
+                            col = r[key(n)] if (lname == "np(3)" and key(n) in (r.dtype.names or ())) else getattr(r, n)
+                            flat = np.asarray(ak.to_numpy(ak.flatten(col, axis=None))) if (ak is not None and isinstance(col, ak.Array)) else np.asarray(col).reshape(-1)
+                            F.check("C04", f"array-dtypes/stored-{n}-kept/{tag}", flat.dtype == np.dtype(dt) and bool(np.all(flat == base[n])), dict(got=flat.tolist(), dtype=str(flat.dtype)))
+                except Exception as e:
+                    F.check("C04", f"array-dtypes/defined/{tag}", False, f"{type(e).__name__}: {str(e)[:160]}")
+    return F.n, F.bad
+
+
 def main(argv):
     report = C.Report("C04")
     t0 = time.time()
@@ -198,8 +252,11 @@ def main(argv):
     res = C.pool_map(shard, jobs)
     n = sum(r[0] for r in res)
     bad = [b for r in res for b in r[1]]
+    ares = C.pool_map(array_dtype_part, jobs)
+    n_arr = sum(r[0] for r in ares)
+    arr_bad = [(oid, d_) for r in ares for p_, oid, d_ in r[1]]
     groups = {}
-    for oid, detail in bad:
+    for oid, detail in bad + arr_bad:
         groups.setdefault(oid.split("[")[0], []).append((oid, detail))
     for gname, items in sorted(groups.items()):
         oid, detail = items[0]
@@ -208,13 +265,15 @@ def main(argv):
             report.known_finding(oid, kf["what"] + f" ({len(items)} lattice points)")
         else:
             report.violation(oid, dict(kind="object-backend-symbolic-evaluation", failing_lattice_points=len(items), first=dict(obligation=oid, detail=detail),
-                                       others=[o for o, _ in items[1:6]], replay_handler="vv.props.c04:replay"), has_input=True)
+                                       others=[o for o, _ in items[1:6]], replay_handler="vv.props.c04:replay_arr" if "/array-dtypes/" in oid else "vv.props.c04:replay"), has_input=True)
 
     def post(rep, results, coverage):
         rep.violations += report.violations
         rep.known += report.known
         coverage["object_backend_symbolic_lattice"] = dict(obligations=n, failed=len(bad), exhaustive=True,
                                                            rule="20 source systems x 2 flavors x 40 to_<system> spellings x keyword subsets, to_Vector2D/3D/4D, to_2D/3D/4D, like x 20 systems; decided by term identity")
+        coverage["array_dtype_lattice_bounded"] = dict(evaluations=n_arr, failed=len(arr_bad), how="BOUNDED run-time contracts: NumPy (3,), Awkward flat and jagged arrays with int64 / float32 "
+                                                       "columns; imputed coordinate == keyword value exactly, stored coordinates keep values and dtype; not counted as discharged obligations")
         coverage["obligations"] += n - len(bad) if False else n
         coverage["discharged"] += n - len(bad)
         coverage["by_backend"]["term identity on symbolic evaluation of the real object backend"] = n - len(bad)
@@ -237,4 +296,19 @@ def replay(prop, rp, path):
         print(f"VIOLATION property={prop} replay={path}")
         return 1
     print("obligation holds on this tree")
+    return 0
+
+
+def replay_arr(prop, rp, path):
+    import re
+    oid = rp["first"]["obligation"]
+    m = re.search(r"\[([a-z,]+)\|(mom|gen)\|", oid)
+    n, bad = array_dtype_part((tuple(m.group(1).split(",")), m.group(2) == "mom"))
+    hit = [b for b in bad if b[1] == oid]
+    for b in hit[:3]:
+        print("still failing:", b)
+    if hit:
+        print(f"VIOLATION property={prop} replay={path}")
+        return 1
+    print("contract holds on this tree")
     return 0
